@@ -15,6 +15,7 @@ EXTRA_TARGETS = {
     'C15': ['XdocModel.Proofs.Compose2'],
     'C18': ['XdocModel.Proofs.C18Labels', 'XdocModel.Proofs.Compose', 'XdocModel.Proofs.NDigits'],
     'C16': ['XdocModel.Proofs.Switch'],
+    'C06': ['XdocModel.Proofs.EllipsisCorollaries'],
     'C19': ['XdocModel.Proofs.Compose2', 'XdocModel.Proofs.DumpKept'],
 }
 
@@ -64,6 +65,9 @@ EXTRA_THEOREMS['C18'] += [('Xdoc.C18.nDigits_minimal', 'full'), ('Xdoc.C18.nDigi
 EXTRA_THEOREMS['C16'] = [('Xdoc.Switch.mode_never_changes_tests', 'full'), ('Xdoc.Switch.auto_is_static_for_py', 'full'),
                          ('Xdoc.Switch.static_ignores_import', 'full'), ('Xdoc.Switch.need_dynamic_never_static', 'full'),
                          ('Xdoc.Switch.unknown_mode_raises', 'full'), ('Xdoc.Switch.import_failure_separates_modes', 'witness')]
+
+EXTRA_THEOREMS['C06'] = [('Xdoc.C06.bare_ellipsis_matches_everything', 'full'), ('Xdoc.C06.padded_ellipsis_matches_everything', 'full'),
+                         ('Xdoc.C06.two_pieces_iff', 'full'), ('Xdoc.C06.two_pieces_length', 'full')]
 
 
 def _replay_K_C08_c(ctx, finding):
@@ -123,6 +127,9 @@ EXTRA_TEXT = {
             "of eight (phase, error) pairs; the other ten are impossible) with a kernel-checked witness docstring for each possible pair (`possibleFailures_all_occur`, each also run "
             "through the real parser), and fuel-freeness of every loop (`findStart_some_spec`, `intervalStarts_decreasing`, `hackComments_fuel_free`, `isBalanced_fuel_free`)."),
     'C15': (" ADDED (Proofs/Compose2.lean): `both_exit_nonzero_iff_failed_of_frames`, `exit_statuses_agree` with the escape hypothesis replaced by C09's frame hypothesis."),
+    'C06': (" ADDED (Proofs/EllipsisCorollaries.lean, fourth session): direct consequences of `ellipsis_iff_spec` for ALL outputs — `bare_ellipsis_matches_everything`, "
+            "`padded_ellipsis_matches_everything` (a want that is only `...`, with or without surrounding white space, accepts every output, the empty one included), "
+            "`two_pieces_iff` (a want that splits into two pieces matches iff the output starts with the first and ends with the last without overlap), `two_pieces_length`."),
     'C16': (" ADDED (Proofs/Switch.lean, fourth session): the analysis switch `core.parse_calldefs` is now inside the model (`Switch.parseCalldefs`: static / dynamic / auto / "
             "unknown value, need_dynamic, import failure kinds) — `mode_never_changes_tests` (for a `.py` module of the fragment whose import succeeds the three accepted modes "
             "return the same identifiers with the same docstrings in the same order), `auto_is_static_for_py`, `static_ignores_import`, `need_dynamic_never_static`, "
